@@ -42,6 +42,30 @@ def gen_cases(tier, seed):
                       'per_caller': r.choice([10, 25, 60]) if not SH.has_process(tree) else r.choice([8, 20]),
                       'advid': r.choice([None, 'lifo', 'lifo', 'fifo', 'random', 'fresh']) if not xtalk else r.choice(['lifo', 'lifo', 'random']),
                       'mode': 'async' if i % 4 == 1 else 'sync', 'fuzz': r.random() < 0.8, 'seed': r.randrange(1 << 30)})
+    # composites inside composites (the random trees rarely nest an ensemble in an ensemble), and two servers alive in one process
+    # at the same time (the second one started, stopped and started again while the first is serving)
+    T = lambda tag, n=1, b=0: ['T', tag, n, b, {}]  # noqa: E731
+    nested = [
+        ['Ens', False, [['Ens', False, [T('A'), T('B', 2)]], T('C')]],
+        ['Ens', True, [['Ens', False, [T('A'), T('B')]], ['Ens', True, [T('C'), T('D')]]]],
+        ['Ens', False, [['Seq', [T('A'), ['Ens', False, [T('B'), T('C')]]]], T('D', 2)]],
+        ['Seq', [['Ens', False, [T('A'), T('B')]], ['Ens', True, [T('C', 2), T('D')]]]],
+        ['Sw', [['Ens', False, [T('A'), T('B')]], ['Ens', False, [T('C'), T('D')]]]],
+        ['Ens', False, [['Sw', [T('A'), ['Ens', True, [T('B'), T('C')]]]], T('D', 1, 3)]],
+        ['Seq', [['Sw', [T('A'), T('B')]], ['Sw', [T('C'), T('D')]]]],
+        ['Sw', [['Sw', [T('A'), T('B')]], ['Seq', [T('C'), T('D')]]]],
+    ]
+    for i in range(len(nested) * (1 if tier == 'quick' else 10)):
+        r = random.Random(rng.randrange(1 << 30))
+        cases.append({'tree': nested[i % len(nested)], 'xtalk': False, 'capacity': r.choice([2, 4, 16]), 'callers': r.choice([2, 3, 4]), 'per_caller': r.choice([10, 25]),
+                      'advid': r.choice([None, 'lifo', 'random']), 'mode': 'async' if i % 3 == 1 else 'sync', 'fuzz': r.random() < 0.5, 'seed': r.randrange(1 << 30)})
+    twins = [['Ens', False, [T('A'), T('B')]], ['Seq', [T('A'), T('B', 1, 3)]], ['Sw', [T('A'), T('B')]], ['Ens', True, [T('A'), ['Seq', [T('B'), T('C')]]]], T('A', 2, 3)]
+    for i in range(10 if tier == 'quick' else 100):
+        r = random.Random(rng.randrange(1 << 30))
+        tree = twins[i % len(twins)]
+        cases.append({'tree': tree, 'twin_tree': tree if i % 2 == 0 else twins[(i + 1) % len(twins)], 'twin_mode': 'async' if i % 4 >= 2 else 'sync', 'xtalk': False,
+                      'capacity': r.choice([2, 4, 16]), 'callers': r.choice([2, 3]), 'per_caller': r.choice([25, 40]), 'advid': None,
+                      'mode': 'async' if i % 3 == 1 else 'sync', 'fuzz': False, 'seed': r.randrange(1 << 30)})
     return cases
 
 
@@ -126,7 +150,7 @@ def run_sync(case, tree, servlet, viol, obs, shadow_box, fz):
     rng = random.Random(case['seed'])
     server = Server(servlet, capacity=case['capacity'])
     shadow_box.append(SH.install_ledger_shadow(server))
-    plans = [make_requests(rng, tree, c, case['per_caller'], case.get('xtalk')) for c in range(case['callers'])]
+    plans = [make_requests(rng, tree, c + case.get('client_base', 0), case['per_caller'], case.get('xtalk')) for c in range(case['callers'])]
     lock = threading.Lock()
 
     def caller(c):
@@ -174,7 +198,7 @@ def run_async(case, tree, servlet, viol, obs, shadow_box, fz):
     from mpservice.mpserver import AsyncServer
 
     rng = random.Random(case['seed'])
-    plans = [make_requests(rng, tree, c, case['per_caller'], case.get('xtalk')) for c in range(case['callers'])]
+    plans = [make_requests(rng, tree, c + case.get('client_base', 0), case['per_caller'], case.get('xtalk')) for c in range(case['callers'])]
 
     async def main():
         server = AsyncServer(servlet, capacity=case['capacity'])
@@ -237,8 +261,35 @@ def run_case(case):
     try:
         servlet = SH.build(tree, log_dir=None, fuzz_child=(case['seed'] % 1000 + 1) if case['fuzz'] else None)
         fn = run_async if case['mode'] == 'async' else run_sync
+        body = lambda: fn(case, tree, servlet, viol, obs, shadow_box, fz)  # noqa: E731
+        if case.get('twin_tree'):
+            # a second server lives in the same process: started a little later, stopped and started again while the first one serves
+            case_b = dict(case, seed=case['seed'] + 1, client_base=100, per_caller=max(4, case['per_caller'] // 4), mode=case['twin_mode'])
+            viol_b, obs_b, shadow_b = [], dict.fromkeys(obs, 0), []
+            fn_b = run_async if case_b['mode'] == 'async' else run_sync
+
+            def twin():
+                time.sleep(0.02)
+                for _ in range(3):
+                    fn_b(case_b, case['twin_tree'], SH.build(case['twin_tree'], log_dir=None), viol_b, obs_b, shadow_b, schedfuzz.NullFuzz())
+                    obs_b['lifetimes'] += 1
+
+            def body():  # noqa: F811
+                th = threading.Thread(target=twin, name='twin-server')
+                th.start()
+                try:
+                    fn(case, tree, servlet, viol, obs, shadow_box, fz)
+                finally:
+                    th.join()
+                for v in viol_b:
+                    v['msg'] = '[second server in the same process] ' + v['msg']
+                viol.extend(viol_b)
+                for k_, v_ in obs_b.items():
+                    if isinstance(v_, int) and k_ != 'process_lifetimes':
+                        obs[k_] = obs.get(k_, 0) + v_
+                obs['twin_lifetimes'] = obs_b['lifetimes']
         try:
-            watch.run_bounded(lambda: fn(case, tree, servlet, viol, obs, shadow_box, fz), BOUND, 'server lifetime')
+            watch.run_bounded(body, BOUND, 'server lifetime')
         except watch.Hang as h:
             viol.append({'mech': 'server/hang', 'msg': 'server lifetime (enter, serve all callers, exit) did not finish; stacks stable', 'stacks': h.stacks})
             return {'violations': viol, 'obs': obs, 'exit_after': True, 'fuzz': fz.stats()}
